@@ -42,6 +42,9 @@ def load_contracts(src):
         comp.register_composites(src)
         import contracts.unions as _un
         _un.register_unions(src)
+        import contracts.repeaters as _rp
+        _rp.register_repeaters(src)
+        _rp.register_array_build(src)
     import contracts.classes as cc
     gens = cc.generic_contracts(src)
     from contracts.prims import LOOPS
